@@ -508,6 +508,9 @@ func c10Explore(sb *proj.Sandbox, p hprog, tier string) c10Result {
 							pre := inputsNow(p, t, curDisk)
 							if t.EffFile > 0 {
 								curDisk.Files[t.EffFile-1] = t.EffVal
+								if t.EffFrom > 0 {
+									curDisk.Files[t.EffFile-1] = curDisk.Files[t.EffFrom-1]
+								}
 							}
 							completed := false
 							for _, l2 := range log {
